@@ -155,6 +155,58 @@ pub fn op_tetris(args: &[Sexp]) -> String {
     out
 }
 
+/// the tetris → raw conversion (`Library::to_raw`): dependencies reached only through `places` — placeable
+/// instances and one-element arrays — which become instances during placement; result = the raw library's cell order
+pub fn op_tetrisraw(args: &[Sexp]) -> String {
+    use layout21tetris as t;
+    use t::array::{Array, ArrayInstance, Arrayable};
+    use t::placement::{Placeable, Separation};
+    let (tbl, items) = match parse_graph(args) {
+        Some(x) => x,
+        None => return "bad-op".into(),
+    };
+    let n = tbl.len();
+    let cells: Vec<Ptr<t::cell::Cell>> = (0..n)
+        .map(|i| Ptr::new(t::cell::Cell::from(t::layout::Layout::new(format!("c{}", i), 0, t::outline::Outline::rect(40, 40).unwrap()))))
+        .collect();
+    for i in 0..n {
+        let mut c = cells[i].write().unwrap();
+        let lay = c.layout.as_mut().unwrap();
+        for (k, d) in tbl[i].iter().enumerate() {
+            if k % 2 == 0 {
+                let arr = Ptr::new(Array { name: format!("a{}", k), unit: Arrayable::Instance(cells[*d].clone()), count: 1, sep: Separation::default() });
+                lay.places.push(Placeable::Array(Ptr::new(ArrayInstance { name: format!("ai{}", k), array: arr, loc: (k as isize, 0).into(), reflect_horiz: false, reflect_vert: false })));
+            } else {
+                lay.places.push(Placeable::Instance(Ptr::new(t::instance::Instance { inst_name: format!("i{}", k), cell: cells[*d].clone(), loc: (k as isize, 1).into(), reflect_horiz: false, reflect_vert: false })));
+            }
+        }
+    }
+    let mut lib = t::library::Library::new("lib");
+    for i in &items {
+        lib.cells.push(cells[*i].clone());
+    }
+    let mut rawlayers = layout21raw::Layers::default();
+    let boundary_layer = Some(rawlayers.add(layout21raw::Layer::from_pairs(0, &[(0, layout21raw::LayerPurpose::Outline)]).unwrap()));
+    let stack = t::stack::Stack { units: layout21raw::Units::default(), boundary_layer, prim: t::stack::PrimitiveLayer::new((100, 100).into()), metals: Vec::new(), vias: Vec::new(), rawlayers: Some(Ptr::new(rawlayers)) };
+    let out = match stack.validate() {
+        Err(_) => "bad-op".to_string(),
+        Ok(vs) => match lib.to_raw(vs) {
+            Err(_) => "err".into(),
+            Ok(rl) => {
+                let rl = rl.read().unwrap();
+                let v: Vec<usize> = rl.cells.iter().map(|c| idx_of_name(&c.read().unwrap().name)).collect();
+                // break the raw library's instance pointers
+                for c in rl.cells.iter() { let mut c = c.write().unwrap(); c.layout = None; }
+                fmt_ok(&v)
+            }
+        },
+    };
+    for c in &cells {
+        if let Ok(mut c) = c.write() { c.layout = None; }
+    }
+    out
+}
+
 pub fn op_gds(args: &[Sexp]) -> String {
     use gds21::*;
     let (tbl, items) = match parse_graph(args) {
@@ -285,6 +337,7 @@ pub fn gen(thorough: bool, rng: &mut Rng, out: &mut Vec<String>) {
             let p = rng.pick(&ps).clone();
             out.push(fmt_case("dep.raw", &tbl, &p));
             out.push(fmt_case("dep.tetris", &tbl, &p));
+            out.push(fmt_case("dep.tetrisraw", &tbl, &p));
             out.push(fmt_case("dep.gds", &tbl, &p));
         }
     }
@@ -301,7 +354,7 @@ pub fn gen(thorough: bool, rng: &mut Rng, out: &mut Vec<String>) {
         }
         if thorough || bits % 16 == rng.below(16) {
             let p = rng.pick(&ps4).clone();
-            out.push(fmt_case(["dep.raw", "dep.tetris", "dep.gds"][(bits % 3) as usize], &tbl, &p));
+            out.push(fmt_case(["dep.raw", "dep.tetris", "dep.gds", "dep.tetrisraw"][(bits % 4) as usize], &tbl, &p));
         }
     }
     // 5 nodes without self-loops (2^20): thorough all, quick a 1/16 sample; one random listing each
@@ -330,7 +383,7 @@ pub fn gen(thorough: bool, rng: &mut Rng, out: &mut Vec<String>) {
         shuffle(rng, &mut items);
         items.truncate(k);
         if rng.chance(1, 5) { let d = items[rng.below(items.len() as u64) as usize]; items.push(d); }
-        out.push(fmt_case(if rng.coin() { "dep.raw" } else { "dep.tetris" }, &tbl, &items));
+        out.push(fmt_case(["dep.raw", "dep.tetris", "dep.tetrisraw"][rng.below(3) as usize], &tbl, &items));
     }
     // random DAGs and cyclic graphs for the embedded orderers, up to hundreds of nodes
     let reps = if thorough { 1500 } else { 150 };
